@@ -121,9 +121,6 @@ pub fn check_partition(flat: &Snap, part: &Snap) -> Vec<Finding> {
                         continue;
                     }
                     let o = outs[0];
-                    if e.dport != "[]" || o.sport != "[]" {
-                        out.push(f("P0-handoff-ports", format!("ports at inserted handoff {} not elided", short(e.dst))));
-                    }
                     contracted.push((e.src, e.sport.clone(), o.dst, o.dport.clone()));
                 } else {
                     contracted.push((e.src, e.sport.clone(), e.dst, e.dport.clone()));
